@@ -87,6 +87,25 @@ def check_name_tests(A, R: Report, rid: str, funcs=None, only=None):
             R.violation(rid, construct, key_of(f.short, op, src(X), src(Y)),
                         f'`{src(node)}` compares structured names textually ({kx} {op} {ky or "pattern"}): names that are textual affixes of one another (`n` / `xn`, `train` / `train_x`) are confused',
                         where=where(f, node))
+    # segment extraction: `x.split(sep, k)[-1]` is the remainder after the first k separators, not the last segment
+    # (and `x.rsplit(sep, k)[0]` the remainder before the last k); on names with several levels the two differ
+    for f in A.prog.functions.values():
+        if only is not None and f.short not in only:
+            continue
+        for node in A.typer.own_nodes(f):
+            if isinstance(node, ast.Subscript) and isinstance(node.value, ast.Call) and isinstance(node.value.func, ast.Attribute) and node.value.func.attr in ('split', 'rsplit') \
+                    and node.value.args and isinstance(node.value.args[0], ast.Constant) and isinstance(node.value.args[0].value, str) and ':' in node.value.args[0].value:
+                c = node.value
+                has_max = len(c.args) >= 2 or any(kw.arg == 'maxsplit' for kw in c.keywords)
+                idx = node.slice.value if isinstance(node.slice, ast.Constant) else (-node.slice.operand.value if isinstance(node.slice, ast.UnaryOp) and isinstance(node.slice.op, ast.USub) and isinstance(node.slice.operand, ast.Constant) else None)
+                if not has_max or idx is None:
+                    continue
+                n += 1
+                wrong = (c.func.attr == 'split' and idx == -1) or (c.func.attr == 'rsplit' and idx == 0)
+                construct = f'{f.short}: `{src(node)[:70]}`'
+                R.check(not wrong, rid, construct, key_of(f.short, 'segment', src(node)), 'bounded split used for the bounded side',
+                        f'`{src(node)}` takes the remainder of a bounded split as if it were the {"last" if idx == -1 else "first"} segment: names with more than one `{c.args[0].value}` level (nested groups / namespaces) are cut at the wrong place',
+                        where=where(f, node))
     return n
 
 
